@@ -30,18 +30,19 @@ type acct struct {
 }
 
 type world struct {
-	c       *chainx.Chain
-	bal     util.Uint160
-	probe   util.Uint160
-	users   map[string]neotest.SingleSigner // hex(script hash) -> signer
-	uhash   []util.Uint160
-	run     *hx.Run
-	n       int
-	special []util.Uint160 // contract addresses used as holders: the Balance contract itself, Netmap
-	wf      bool           // case stays inside the properties' quantifier: monitors are active
-	prev    map[string]acct
-	supply  *big.Int
-	nlock   int
+	c         *chainx.Chain
+	bal       util.Uint160
+	probe     util.Uint160
+	users     map[string]neotest.SingleSigner // hex(script hash) -> signer
+	uhash     []util.Uint160
+	run       *hx.Run
+	n         int
+	special   []util.Uint160 // contract addresses used as holders: the Balance contract itself, Netmap
+	wf        bool           // case stays inside the properties' quantifier: monitors are active
+	prev      map[string]acct
+	supply    *big.Int
+	nlock     int
+	zeroAddrs []string // keyless addresses that received a zero-amount transfer (candidates for "existing empty record" lock targets)
 	// C09 spec state: lock account -> (parent, until)
 	locks map[string]lockSpec
 }
@@ -407,8 +408,12 @@ func (w *world) monitor(line, sig, caller, method string, args []string, res cha
 		}
 	}
 	// C09: lock life cycle
-	if halted && method == "lock" {
+	if halted && method == "lock" && args[1] != args[2] { // locking an account onto itself is not a lock in the property's sense
 		w.locks[args[2]] = lockSpec{args[1], hx.Big(args[4])}
+		// the lock account carries the owner and the expiry it was created with
+		if a, ok := cur[args[2]]; args[1] != args[2] && (!ok || hx.Hex(a.parent) != args[1] || a.till.Cmp(hx.Big(args[4])) != 0) {
+			v("C09", "lock-without-owner", fmt.Sprintf("lock account %s does not record owner %s / until %s", args[2], args[1], args[4]))
+		}
 	}
 	if halted && method == "tick" {
 		e := hx.Big(args[0])
@@ -456,6 +461,18 @@ func (w *world) monitor(line, sig, caller, method string, args []string, res cha
 			want := new(big.Int).Add(balOf(w.prev, p), c)
 			if want.Cmp(balOf(cur, p)) != 0 {
 				v("C09", "wrong-refund", fmt.Sprintf("owner %s: %s -> %s at tick %s, expected %s", p, balOf(w.prev, p), balOf(cur, p), e, want))
+			}
+		}
+	}
+	// C09: a burn takes exactly its amount from a lock account ("partial burns reduce what is returned")
+	if halted && method == "burn" {
+		if _, isLock := w.locks[args[0]]; isLock {
+			want := new(big.Int).Sub(balOf(w.prev, args[0]), hx.Big(args[1]))
+			if want.Cmp(balOf(cur, args[0])) != 0 {
+				v("C09", "burn-wrong-amount", fmt.Sprintf("lock account %s: %s -> %s after burning %s", args[0], balOf(w.prev, args[0]), balOf(cur, args[0]), args[1]))
+			}
+			if a, ok := cur[args[0]]; ok && want.Sign() > 0 && (len(a.parent) == 0 || a.till.Cmp(w.locks[args[0]].until) != 0) {
+				v("C09", "burn-drops-lock", fmt.Sprintf("lock account %s lost its owner/expiry by a partial burn", args[0]))
 			}
 		}
 	}
@@ -585,6 +602,12 @@ func (g *gen) next(epoch *int64) string {
 		}
 		return fmt.Sprintf("op %s - mint %s %s %s", sig, g.addr20(), amt, g.details())
 	case r < 48: // public transfer with various signers
+		if g.rng.IntN(10) == 0 { // leave an empty record at a fresh keyless address
+			u := hx.Hex(hx.Pick(g.rng, w.uhash).BytesBE())
+			z := g.freshLock()
+			w.zeroAddrs = append(w.zeroAddrs, z)
+			return fmt.Sprintf("op %s - transfer %s %s 0", u, u, z)
+		}
 		from := g.anyAddr()
 		to := g.anyAddr()
 		if g.rng.IntN(8) == 0 {
@@ -620,16 +643,46 @@ func (g *gen) next(epoch *int64) string {
 		return fmt.Sprintf("op %s - transferX %s %s %s %s", sig, f, g.addr20(), g.amount(f), g.details())
 	case r < 68:
 		f := g.addr20()
+		amt := g.amount(f)
+		// C09 "partial and full burns": a third of the burns target a live lock account with a partial or the full amount
+		if ls := hx.SortedKeys(w.locks); len(ls) > 0 && g.rng.IntN(3) == 0 {
+			f = hx.Pick(g.rng, ls)
+			b := balOf(w.prev, f)
+			switch g.rng.IntN(4) {
+			case 0:
+				amt = new(big.Int).Rsh(b, 1).String()
+			case 1:
+				amt = new(big.Int).Sub(b, big.NewInt(1)).String()
+			case 2:
+				amt = "1"
+			default:
+				amt = b.String()
+			}
+		}
 		sig := "alpha"
 		if g.rng.IntN(8) == 0 {
 			sig = "-"
 		}
-		return fmt.Sprintf("op %s - burn %s %s %s", sig, f, g.amount(f), g.details())
+		return fmt.Sprintf("op %s - burn %s %s %s", sig, f, amt, g.details())
 	case r < 86:
 		f := g.src20()
 		to := g.freshLock()
 		if !w.wf && g.rng.IntN(3) == 0 {
 			to = g.addr20() // outside the quantifier: existing lock target
+		} else if g.rng.IntN(6) == 0 {
+			// a lock address that already has an (empty, non-lock) record left by somebody's zero-amount transfer
+			// (a keyless address, like every lock address): legal, and the lock must still carry its owner and expiry
+			var zs []string
+			for _, k := range w.zeroAddrs {
+				if a, ok := w.prev[k]; ok && a.bal.Sign() == 0 && len(a.parent) == 0 {
+					if _, isLock := w.locks[k]; !isLock && k != f {
+						zs = append(zs, k)
+					}
+				}
+			}
+			if len(zs) > 0 {
+				to = hx.Pick(g.rng, zs)
+			}
 		}
 		until := *epoch + int64(g.rng.IntN(5)) - 1
 		if g.rng.IntN(6) == 0 {
